@@ -232,6 +232,7 @@ func runC01(r *core.Run) {
 		s.Done()
 	}
 
+	corpusSub(r, "structured-corpus/all+attrall+xhtml", core.MustCfg("all+attrall+xhtml"), nil, func(s *core.Sub, cv *core.Conv, w []byte) { c01Case(s, cv, w) })
 	// runs of documents sharing one parser.Context (parser.WithContext): no panic, no error
 	for _, cn := range []string{"all+autoid+attr+unsafe+xhtml", "core"} {
 		sharedContextSub(r, "shared-context/"+cn, "no call panics or returns an error", core.MustCfg(cn), c12StructuredDocs(r.Quick()),
